@@ -33,7 +33,7 @@ const (
 // edge is one descriptor inside a manifest.
 type edge struct {
 	C      string `json:"c"`              // child node name
-	Role   string `json:"role"`           // config | layer | ext | entry | bentry
+	Role   string `json:"role"`           // config | layer | ext | entry | bentry | uentry
 	Plat   string `json:"plat,omitempty"` // os/arch of an index entry ("" = none)
 	Inline bool   `json:"inline,omitempty"`
 }
@@ -198,7 +198,10 @@ func (s *shape) index(name string, docker bool, entries []lref, subject *node, a
 		es = append(es, desc(e.n, e.o))
 		role := "entry"
 		if !e.n.isMan() {
-			role = "bentry"
+			role = "bentry" // blob behind a known blob media type
+			if e.o.mt == mtUnknown {
+				role = "uentry" // unknown media type: the copy tries a manifest first, then a blob
+			}
 		}
 		n.Edges = append(n.Edges, edge{C: e.n.Name, Role: role, Plat: e.o.plat, Inline: e.o.inline})
 	}
